@@ -1,0 +1,63 @@
+//go:build verif
+
+package main
+
+import (
+	"bufio"
+	"bytes"
+	"encoding/hex"
+	"fmt"
+	"os"
+	"strings"
+)
+
+// Verification hook (build tag "verif" only): when UNIVERS_VERIF_BATCH is set, the binary reads
+// one argument vector per line from stdin (arguments hex-encoded and separated by spaces, "-"
+// for the empty string, an empty line for no arguments), calls run for each and prints
+// "<exit code> <hex of output> <hex of panic text>" per line.  Without the tag this file is
+// not part of the build.
+func init() {
+	if os.Getenv("UNIVERS_VERIF_BATCH") == "" {
+		return
+	}
+	in := bufio.NewScanner(os.Stdin)
+	in.Buffer(make([]byte, 1<<22), 1<<22)
+	out := bufio.NewWriter(os.Stdout)
+	enc := func(b []byte) string {
+		if len(b) == 0 {
+			return "-"
+		}
+		return hex.EncodeToString(b)
+	}
+	for in.Scan() {
+		var args []string
+		if line := in.Text(); line != "" {
+			for _, f := range strings.Split(line, " ") {
+				if f == "-" {
+					args = append(args, "")
+					continue
+				}
+				b, err := hex.DecodeString(f)
+				if err != nil {
+					b = []byte(f)
+				}
+				args = append(args, string(b))
+			}
+		}
+		var buf bytes.Buffer
+		code, pan := func() (c int, p string) {
+			defer func() {
+				if r := recover(); r != nil {
+					p = fmt.Sprint(r)
+					if p == "" {
+						p = "panic"
+					}
+				}
+			}()
+			return run(&buf, args), ""
+		}()
+		fmt.Fprintf(out, "%d %s %s\n", code, enc(buf.Bytes()), enc([]byte(pan)))
+	}
+	out.Flush()
+	os.Exit(0)
+}
